@@ -1,4 +1,4 @@
-import EinxModel.Proofs.RejectInternal
+import EinxModel.Proofs.RejectRoot
 /-!
 # C03 (parser) — ill-formed descriptions are rejected with `SyntaxError`, never a tree, never an internal error
 
@@ -53,6 +53,37 @@ theorem parse_rejected_is_syntax_error (text : Str) (h : ∀ x, parseOp text ≠
     have := parseOp_ok text
     rw [he] at this
     exact this.1
+
+/-- **`parse_root_shape`**: every tree `parse_op` returns is `Op[Args(…)]` or `Op[Args(…), Args(…)]` — what `_parse_op`
+    (`op.children[0].children`, `op.children[1].children`) and `parse_args` (`assert isinstance(op.children[0], Args)`) rely on. -/
+theorem parse_root_shape (text : Str) (x : Expr) (h : parseOp text = .ok x) :
+    (∃ ins b1 e1 b e, x = .op [.args ins b1 e1] b e) ∨
+    (∃ ins b1 e1 outs b2 e2 b e, x = .op [.args ins b1 e1, .args outs b2 e2] b e) := parseOp_root text x h
+
+/-- `parse_args` returns an `Args` tree or raises `SyntaxError` (its `assert` cannot fire); a description with an arrow is
+    the `SyntaxError` "must not contain a '->' operator". -/
+theorem parse_args_no_internal (text : Str) :
+    (∃ cs b e, parseArgs text = .ok (.args cs b e)) ∨ (∃ k pos alts, parseArgs text = .error (.syntax k pos alts)) := by
+  unfold parseArgs
+  rcases parse_no_internal text with ⟨x, hx⟩ | ⟨k, pos, alts, he⟩
+  · rw [hx]
+    rcases parse_root_shape text x hx with ⟨ins, b1, e1, b, e, rfl⟩ | ⟨ins, b1, e1, outs, b2, e2, b, e, rfl⟩
+    · left; exact ⟨ins, b1, e1, rfl⟩
+    · right; exact ⟨_, _, _, rfl⟩
+  · rw [he]; right; exact ⟨k, pos, alts, rfl⟩
+
+/-- `parse_arg` returns one expression or raises `SyntaxError`. -/
+theorem parse_arg_no_internal (text : Str) :
+    (∃ x, parseArg text = .ok x) ∨ (∃ k pos alts, parseArg text = .error (.syntax k pos alts)) := by
+  unfold parseArg
+  rcases parse_args_no_internal text with ⟨cs, b, e, h⟩ | ⟨k, pos, alts, h⟩
+  · rw [h]
+    simp only [Expr.children]
+    match cs with
+    | [c] => left; exact ⟨c, rfl⟩
+    | [] => right; exact ⟨_, _, _, rfl⟩
+    | _ :: _ :: _ => right; exact ⟨_, _, _, rfl⟩
+  · rw [h]; right; exact ⟨k, pos, alts, rfl⟩
 
 /-! ## Characters outside the alphabet -/
 
